@@ -15,8 +15,12 @@ META = dict(
     evaluations_counter="cases",
     min={"histories": 200, "freeze_steps": 200, "second_freeze_steps": 80, "deepcopy_steps": 60, "move_steps": 60, "other_copy_steps": 100,
          "compaction_checks": 200, "transitions_checked": 1000},
-    anchors=["quantize.py:freeze", "nn/qmodule.py:QModuleMixin.freeze", "nn/qmodule.py:QModuleMixin.qweight",
-             "quantize.py:quantize"],
+    anchors=["quantize.py:freeze",
+             "nn/qmodule.py:QModuleMixin.freeze",
+             "nn/qmodule.py:QModuleMixin.qweight",
+             "quantize.py:quantize",
+             "tensor/qbits/qbits_ops.py:clone",
+             "tensor/qbytes_ops.py:clone"],
     rule="case = one lifecycle history on a runnable model (7 architectures x 6 weight qtypes x activations "
          "{None,qint8,qfloat8} x dtype): random interleaving of forward / calibrate (with or without autograd) / freeze / "
          "freeze again / to(cpu) / cpu() / to(torch.device) / to(non_blocking) / deepcopy / copy.copy / pickle round trip / "
